@@ -337,6 +337,31 @@ func runSign() {
 					_, valid, _ := sBatch(vtr, r, keys, msgs, sigs, p2.opts(rep%2 == 1))
 					ev := verifyEvent("VerifyBatch", rep%2 == 1, p2, A, R, msg, s.sig, valid[pos], note)
 					vtr.Emit(ev)
+					// a whole chunk of signatures made under p1, verified under p2 (the batch equation itself decides)
+					if p1.String() != p2.String() || string(p1.ctx) != string(p2.ctx) {
+						n := 4 + rep%2
+						ks := make([]ed25519.PublicKey, n)
+						ms := make([][]byte, n)
+						ss := make([][]byte, n)
+						var as, rs []hx.PT
+						for i := 0; i < n; i++ {
+							sd := r.Bytes(32)
+							m := r.Bytes(64)
+							o := stded.NewKeyFromSeed(sd)
+							sg, err := o.Sign(nil, m, p1.stdOpts())
+							if err != nil {
+								panic(err)
+							}
+							_, a2, _, r2 := derive(sd, p1, m)
+							ks[i], ms[i], ss[i] = ed25519.PublicKey(o[32:]), m, sg
+							as = append(as, hx.KT(a2, 0, 0, "honest"))
+							rs = append(rs, hx.KT(r2, 0, 0, "honest"))
+						}
+						_, v2, _ := sBatch(vtr, r, ks, ms, ss, p2.opts(rep%2 == 0))
+						for i := 0; i < n; i++ {
+							vtr.Emit(verifyEvent("VerifyBatch/all", rep%2 == 0, p2, as[i], rs[i], ms[i], ss[i], v2[i], note))
+						}
+					}
 					for i, v := range valid {
 						if i != pos && !v {
 							vtr.Emit(map[string]interface{}{"op": "note", "what": "stdlib-signed batch neighbour rejected under " + p2.String()})
